@@ -355,7 +355,8 @@ type multiCase struct {
 	Type         int         `json:"type"`
 	Sats         []ref.Sat   `json:"sats"`
 	SigIDs       []uint      `json:"sig_ids"`
-	Cells        [][]ref.Sig `json:"cells"` // [satellite][signal]
+	Cells        [][]ref.Sig `json:"cells"`            // [satellite][signal]
+	Absent       [][]bool    `json:"absent,omitempty"` // cell mask bit clear for [satellite][signal]
 	AfterDisplay bool        `json:"checked_after_display,omitempty"`
 }
 
@@ -376,23 +377,41 @@ func execC08Multi(c *child.Ctx, k multiCase) {
 		m.SigMask |= uint32(1) << (32 - id)
 	}
 	m.Sats = k.Sats
+	absent := func(i, j int) bool { return k.Absent != nil && k.Absent[i][j] }
 	for i := range k.Sats {
 		for j := range k.SigIDs {
-			m.CellMask = append(m.CellMask, true)
-			m.Sigs = append(m.Sigs, k.Cells[i][j])
+			m.CellMask = append(m.CellMask, !absent(i, j))
+			if !absent(i, j) {
+				m.Sigs = append(m.Sigs, k.Cells[i][j])
+			}
 		}
 	}
 	frame := ref.Frame(ref.EncodeMSM(m))
 	cons := ref.ConstellationOf(k.Type)
+	// the decoder keeps, per satellite, only the cells that are present, in signal order
 	pass := func(check func(i, j int, kc cellCase, cj []byte)) {
 		for i := range k.Sats {
+			col := 0
 			for j, id := range k.SigIDs {
+				if absent(i, j) {
+					continue
+				}
 				kk := k
 				kc := cellCase{Type: k.Type, Sat: k.Sats[i], Sig: k.Cells[i][j], SigID: id}
 				cjj, _ := json.Marshal(kk)
-				check(i, j, kc, cjj)
+				check(i, col, kc, cjj)
+				col++
 			}
 		}
+	}
+	rowLen := func(i int) int {
+		n := 0
+		for j := range k.SigIDs {
+			if !absent(i, j) {
+				n++
+			}
+		}
+		return n
 	}
 	_ = cons
 	if ref.IsMSM7(k.Type) {
@@ -401,8 +420,8 @@ func execC08Multi(c *child.Ctx, k multiCase) {
 			c.Count("decode_failures_left_to_C04", 1)
 			return
 		}
-		for _, row := range dm.Signals {
-			if len(row) != len(k.SigIDs) {
+		for i, row := range dm.Signals {
+			if len(row) != rowLen(i) {
 				c.Count("decode_failures_left_to_C04", 1)
 				return
 			}
@@ -421,8 +440,8 @@ func execC08Multi(c *child.Ctx, k multiCase) {
 			c.Count("decode_failures_left_to_C04", 1)
 			return
 		}
-		for _, row := range dm.Signals {
-			if len(row) != len(k.SigIDs) {
+		for i, row := range dm.Signals {
+			if len(row) != rowLen(i) {
 				c.Count("decode_failures_left_to_C04", 1)
 				return
 			}
@@ -601,6 +620,20 @@ func monC08(c *child.Ctx, replay json.RawMessage) {
 				row = append(row, mk(t).Sig)
 			}
 			mc.Cells = append(mc.Cells, row)
+		}
+		if i%3 == 1 {
+			// a satellite without any cell in the middle, other cells missing here and there
+			mc.Absent = make([][]bool, ns)
+			for si := range mc.Absent {
+				mc.Absent[si] = make([]bool, ng)
+				for g := range mc.Absent[si] {
+					mc.Absent[si][g] = si == ns/2 && ns > 2 || r.Chance(1, 5)
+				}
+			}
+			// the first and the last satellite keep a cell
+			mc.Absent[ns-1][0] = false
+			mc.Absent[0][ng-1] = false
+			c.Count("messages_with_satellites_without_cells", 1)
 		}
 		if i%64 == 0 {
 			c.BeginV(mc)
